@@ -260,6 +260,9 @@ func (s *Script) assert(t *Term) {
 
 // strLit returns the constant standing for a Go string literal.
 func (s *Script) strLit(v string) *Term {
+	if v == "" {
+		return &Term{"emptystr", SStr}
+	}
 	if n, ok := s.strLits[v]; ok {
 		return &Term{n, SStr}
 	}
@@ -278,11 +281,14 @@ const prelude = `(set-option :produce-models true)
 (declare-fun slen (Sl) Int)
 (declare-fun len_s (Str) Int)
 (declare-fun cat (Str Str) Str)
+(declare-fun emptystr () Str)
 (declare-fun dyntype (V) Int)
 (declare-fun birth (V) Int)
 (assert (forall ((s Sl)) (! (>= (slen s) 0) :pattern ((slen s)))))
 (assert (forall ((s Str)) (! (>= (len_s s) 0) :pattern ((len_s s)))))
 (assert (= (slen nilsl) 0))
+(assert (= (len_s emptystr) 0))
+(assert (forall ((s Str)) (! (=> (= (len_s s) 0) (= s emptystr)) :pattern ((len_s s)))))
 (assert (forall ((a Str) (b Str)) (! (= (len_s (cat a b)) (+ (len_s a) (len_s b))) :pattern ((cat a b)))))
 `
 
@@ -301,8 +307,8 @@ func (s *Script) render(extra []string, getValues []string) string {
 		fmt.Fprintf(&b, "(declare-fun %s () Str) ; %q\n", l.name, trunc(l.text, 60))
 		fmt.Fprintf(&b, "(assert (= (len_s %s) %d))\n", l.name, len(l.text))
 	}
-	if len(lits) > 1 {
-		b.WriteString("(assert (distinct")
+	if len(lits) > 0 {
+		b.WriteString("(assert (distinct emptystr")
 		for _, l := range lits {
 			b.WriteString(" " + l.name)
 		}
